@@ -47,6 +47,11 @@ class _Peer:
         self.k += 1
         return STREAM[self.k * 2:self.k * 2 + 2]
 
+    def chunk3(self):
+        # the reader thread queues 3-byte chunks while reads ask for 2: every read leaves a carry-over
+        self.k += 1
+        return STREAM[self.k * 3:self.k * 3 + 3]
+
 
 class _Sock:
     def __init__(self, peer):
@@ -63,6 +68,10 @@ class _Sock:
 
     def sendall(self, b):
         self.p.write(7, b)
+
+    def send(self, b):
+        self.p.write(7, b[:1])
+        return 1 if len(b) else 0
 
     def recv(self, n):
         return self.p.read(7, n)
@@ -85,7 +94,7 @@ class _Q:
         self.n += 1
         if self.n % 2 == 0:
             raise PO.Empty()
-        return self.p.read(0, 2)
+        return self.p.chunk3()
 
 
 class _FO:
